@@ -29,6 +29,9 @@ type Opts struct {
 	// certificate, then the node restarts): the only way the alphabet produces records that
 	// contradict the Agglayer's, so that "refuses to proceed" is exercised.
 	Contradictions bool
+	// NoPlainFailNext drops the free-standing FailNextAgglayerCall event (explored in C02); a failing
+	// first Agglayer call is instead offered together with the restart events (Restart+fail, LoseDB+fail).
+	NoPlainFailNext bool
 	// Verbose evaluates the invariants and logs the state after EVERY event of the history (replay);
 	// otherwise that is done for the last event only: every proper prefix of an explored history is
 	// itself an explored history whose last event was checked.
@@ -56,16 +59,42 @@ type Exec struct {
 	initPending bool   // the node is still inside its start-up reconciliation (it has not entered the send loop)
 	initStage   string // why
 	budgetUsed  int
-	live        bool // the event being applied is the last one of the history (the new transition)
-	stop        bool // a violation was found: the state is not expanded
+	live        bool   // the event being applied is the last one of the history (the new transition)
+	stop        bool   // a violation was found: the state is not expanded
 	probe       func() // bounded-progress probe to run after key and enabled events are fixed
 	tmpl        []byte // an empty certificate DB as the real constructor creates it
 }
 
 var execSeq atomic.Int64
 
+// Deadline, when set, is the wall-clock time after which executions are no longer started: Run
+// then reports a horizon hit (the evidence says exhaustive:false) and the state is not expanded.
+var Deadline time.Time
+
+// SetDeadlineFromArgs reads the orchestrator's --deadline <seconds> flag.
+func SetDeadlineFromArgs(args []string) {
+	for i, a := range args {
+		v := ""
+		if (a == "--deadline" || a == "-deadline") && i+1 < len(args) {
+			v = args[i+1]
+		} else if s, ok := strings.CutPrefix(a, "--deadline="); ok {
+			v = s
+		}
+		if v != "" {
+			var secs float64
+			if _, err := fmt.Sscanf(v, "%g", &secs); err == nil && secs > 0 {
+				Deadline = time.Now().Add(time.Duration(secs * float64(time.Second)))
+			}
+		}
+	}
+}
+
 // Run executes history on fresh objects and returns the canonical state key and the enabled events.
 func Run(c *mc.Ctx, cfg Cfg, opt Opts, w *World, history []string) (key string, enabled []string) {
+	if !Deadline.IsZero() && time.Now().After(Deadline) { // real clock: we are outside the bubble here
+		c.HorizonHit()
+		return "not executed: soft deadline of this invocation reached", nil
+	}
 	set, err := w.Acquire()
 	if err != nil {
 		panic(fmt.Sprintf("senderkit: cannot build stores: %v", err))
@@ -184,7 +213,7 @@ func (x *Exec) runInit() {
 	case errors.Is(err, context.Canceled):
 		x.initPending, x.initStage = true, "reconciliation"
 	default:
-		x.initPending, x.initStage = true, "flow-startup-check"
+		x.initPending, x.initStage = true, "flow-startup-check: "+err.Error()
 		x.C.Obs("VerifInit: flow start-up check failed: %v", err)
 	}
 }
@@ -263,7 +292,7 @@ func (x *Exec) judgeRestart(why, desc string, contradiction bool) {
 				"but the start-up reconciliation still fails after 3 retries (it retries the same comparison forever).\nlocal:\n%s\nagglayer:\n%s",
 			why, desc, x.localDump(), x.Ag.Dump())
 	case !contradiction && x.initPending:
-		x.fail("restart-refuses/"+strings.SplitN(x.initStage, ":", 2)[0], "after %s (%s) the node does not start: %s.\nlocal:\n%s\nagglayer:\n%s",
+		x.fail("restart-refuses/"+strings.SplitN(x.initStage, ":", 2)[0], "after %s nothing in the node's records contradicts the Agglayer's (%s) but the node does not start (Start panics on this error): %s.\nlocal:\n%s\nagglayer:\n%s",
 			why, desc, x.initStage, x.localDump(), x.Ag.Dump())
 	}
 	if !x.stop && !x.initPending && x.live {
@@ -365,6 +394,17 @@ func (x *Exec) tick(epoch bool, crashAt string, faultK int) (crashed bool) {
 
 func (x *Exec) apply(ev string) {
 	name, arg, _ := strings.Cut(ev, "/")
+	if base, ok := strings.CutSuffix(name, "+fail"); ok {
+		// the restart happens while the Agglayer is unreachable: its first call fails without effect
+		name = base
+		x.Ag.FailNext = true
+	}
+	recoveryFault := false
+	if base, ok := strings.CutSuffix(name, "+fault"); ok {
+		// the first write statement of the save made by the start-up reconciliation fails
+		name = base
+		recoveryFault = true
+	}
 	switch name {
 	case "L2Block":
 		if x.N < x.W.Hist.NumBlocks() {
@@ -445,8 +485,15 @@ func (x *Exec) apply(ev string) {
 			os.Remove(x.dbPath + suffix)
 		}
 		x.k.crashAt, x.k.faultK = "", 0
+		if recoveryFault {
+			x.k.faultK, x.k.faultFired = 1, false
+		}
 		desc, contradiction := x.localSituation()
 		x.startNode()
+		if recoveryFault {
+			x.witness(map[bool]string{true: "storage-fault-fired-in-recovery-save", false: "storage-fault-in-recovery-not-reached"}[x.k.faultFired])
+			x.k.faultK = 0
+		}
 		x.C.Obs("certificate DB lost (%s); restart: start-up %s", desc, map[bool]string{false: "completed", true: "did NOT complete (" + x.initStage + ")"}[x.initPending])
 		x.judgeRestart("losing the certificate database", desc, contradiction)
 	default:
@@ -468,7 +515,7 @@ func (x *Exec) enabled() []string {
 		}
 		ev = append(ev, "Settle", "InError")
 	}
-	if !x.Ag.FailNext {
+	if !x.Ag.FailNext && !x.Opt.NoPlainFailNext {
 		ev = append(ev, "FailNext")
 	}
 	if x.Cfg.Flow == "FEP" && !x.k.proverShort {
@@ -476,6 +523,12 @@ func (x *Exec) enabled() []string {
 	}
 	if x.Opt.Crashes && x.budgetUsed < x.Opt.MaxCrashEvents {
 		ev = append(ev, "Restart", "LoseDB")
+		if x.Opt.NoPlainFailNext {
+			ev = append(ev, "Restart+fail", "LoseDB+fail")
+		}
+		if x.Cfg.Faults && len(x.Ag.Entries) > 0 {
+			ev = append(ev, "LoseDB+fault") // the recovery save is a save transaction too
+		}
 		if x.Opt.Contradictions && len(x.Ag.Entries) > 0 {
 			ev = append(ev, "AgglayerLosesLast")
 		}
